@@ -27,7 +27,7 @@ pub fn park() {
 }
 
 pub fn yield_now() {
-    kernel::point();
+    kernel::yield_point();
 }
 
 pub fn panicking() -> bool {
